@@ -54,8 +54,9 @@ def cases(draw, tier):
     else:
         allb = gen.basis_strings(n, "XYZ" + "".join(sorted(k for k in (sc.get("unitaries") or {}) if k not in "XYZ")))     # user letters may appear in measurement bases
     rot = [b for b in allb if set(b) != {"Z"}]
+    all_ref = t != "positive" and draw(st.integers(0, 9)) == 0      # a complex / mixed state with data measured in the reference basis only
     for i in range(N):
-        if t == "positive":
+        if t == "positive" or all_ref:
             b = "Z" * n
         elif i == 0:
             b = "Z" * n
@@ -86,6 +87,37 @@ def cases(draw, tier):
 MIN_ROW_PROB = 1e-6     # threshold on 1/condition: rows whose rotated amplitude is a sum cancelling to < 1e-6 of its terms are ill-conditioned for
                         # ANY float64 implementation (d(-log p) amplifies the rounding of the terms): excluded and counted.  A tiny probability that
                         # is NOT due to cancellation (strongly polarised states) is well-conditioned and stays in the domain.
+
+
+def vanishing_offdiagonal_element(case):
+    """Computed predicate of known finding F1: a mixed state with an off-diagonal element rho(v, v') that vanishes (to 1e-6 of its natural
+    size) because one auxiliary unit's factor 1 + exp(d_k + U_am,k.(v+v')/2 + i U_ph,k.(v-v')/2) does.  The library differentiates
+    log rho(v, v'), which is singular there (0 * inf), although the NLL itself is smooth.  Both parameter sets of a case are examined."""
+    sc = case.get("state") or {}
+    if sc.get("type") != "density":
+        return False
+    import itertools
+    n = sc["n"]
+    sets = [(sc["am"], sc["ph"])]
+    if case.get("am2") and case.get("ph2"):
+        sets.append((case["am2"], case["ph2"]))
+    vs = list(itertools.product([0.0, 1.0], repeat=n))
+    for am, ph in sets:
+        for k in range(len(am["d"])):
+            ua, up, d = am["U"][k], ph["U"][k], am["d"][k]
+            for v in vs:
+                for vp in vs:
+                    if v == vp:
+                        continue
+                    re_ = d + 0.5 * sum(u * (a + b) for u, a, b in zip(ua, v, vp))
+                    im_ = 0.5 * sum(u * (a - b) for u, a, b in zip(up, v, vp))
+                    if abs(complex(1.0, 0.0) + np.exp(complex(re_, im_))) < 1e-6 * (1.0 + np.exp(re_)):
+                        return True
+    return False
+
+
+from vf import common as _common
+_common.KNOWN_PREDICATES["vanishing_offdiagonal_element"] = vanishing_offdiagonal_element
 
 
 def born_rows(case, with_probs=False):
@@ -263,6 +295,8 @@ def check_round(case, state):
     # precision tier: the reference NLL with hidden units in product form (torch softplus, see refmodel.library_precision) follows the
     # library's documented arithmetic (value: thresholded softplus, derivative: exact sigmoid), so its autograd gradient must be met to ~2e-10 of the gradient's scale
     prec = 2e-10 + 50 * 2.2e-16 / min(probs)       # 2e-10 of the gradient's scale, plus the rounding any implementation incurs on the worst-conditioned admitted row
+    if t == "density" and gen.max_preactivation(sc) > 18.0:
+        prec = max(prec, 1e-8)      # mixed states: the auxiliary-unit terms of the gradient carry the documented e^-20 softplus deviation once a pre-activation can pass the threshold
     with R.library_precision():
         cmp_grads(state, full, ref_grads(sc, rows, with_Z=True), "precision:compute_exact_gradients", rtol=prec)
         cmp_grads(state, pp, ref_grads(sc, rows, with_Z=False), "precision:positive_phase_gradients", rtol=prec)
